@@ -568,7 +568,7 @@ def is_existence_check_fn(prog, flows, path, param):
 def param_sources(flows, body, fl, operand):
     """parameters of `body` (indices) the operand's value derives from (data), and whether it also
     derives from the graph's own stores"""
-    sl = flows.slice(body.path, fl._op_reads(operand), up=False, down="clos", data_only=True, skip_selectors=True)
+    sl = flows.slice(body.path, fl._op_reads(operand), up=False, down="clos", data_only=True, skip_selectors=True, skip_captures=True)
     params = set()
     for (bp, n) in sl:
         if bp == body.path and n[0] in ("L", "SRC") and isinstance(n[1], int) and 1 <= n[1] <= body.arg_count:
@@ -920,7 +920,7 @@ def rule3(ctx, prog, flows, all_sites, review, handled):
                     g = comparison_guard(fl, t.bb, dx, c) if c is not None else None
                     if g:
                         auto = "unsigned subtraction of %d %s" % (c, g)
-        key = "arith|%s|%s" % (b.short if panic.LEGACY_KEYS else b.short.split("::{closure")[0], kshape)
+        key = "arith|%s|%s" % (b.short if panic.LEGACY_KEYS else panic.root_fn_short(b), kshape)
         if mk == "Overflow" and ao:
             KEYMAP.append((legacy, key))
         groups.setdefault(key, []).append((b, s, auto, detail))
